@@ -1,2 +1,3 @@
 //@wholefile crates/parol_runtime/src/lexer/token_buffer.rs
 //@append harness_buffer.rs
+//@append native_enum.rs
